@@ -96,6 +96,14 @@ var wktPool = []struct{ path, typ string }{
 	{"google/protobuf/any.proto", ".google.protobuf.Any"},
 }
 
+var numericOptionLines = []string{
+	"  option (o.ratio) = -2;", "  option (o.ratio) = 1.5;", "  option (o.dval) = -7;", "  option (o.sval) = -4;", "  option (o.ratio) = inf;", "  option (o.dval) = 3;",
+}
+
+var defaultFieldLines = []string{
+	"  optional float fl = %d [default = -3];", "  optional double db = %d [default = 2];", "  optional sint64 si = %d [default = -9];", "  optional float fn = %d [default = -inf];",
+}
+
 var pkgPool = []string{"", "p", "p.q", "r", "p.q.s"}
 
 func fq(pkg, name string) string {
@@ -241,6 +249,16 @@ func genCompileWLKinds(t *rapid.T, maxFiles int, kinds []int) CompileWL {
 		if withOpts && i > 0 && rapid.IntRange(0, 1).Draw(t, "useOpt") == 0 {
 			s.useOpts = true
 			msg = append(msg, fmt.Sprintf("  option (o.tag) = \"m%d\";", i))
+			// numeric option values in several literal forms (the descriptor-proto
+			// input form re-reads them from uninterpreted options)
+			if k := rapid.IntRange(0, 7).Draw(t, "numOpt"); k < len(numericOptionLines) {
+				msg = append(msg, numericOptionLines[k])
+			}
+		}
+		if s.syntax == "proto2" {
+			if k := rapid.IntRange(0, 9).Draw(t, "defaults"); k < len(defaultFieldLines) {
+				msg = append(msg, fmt.Sprintf(defaultFieldLines[k], fieldNo+20))
+			}
 		}
 		s.body = append(s.body, fmt.Sprintf("message M%d {\n%s\n}", i, strings.Join(msg, "\n")))
 		if rapid.IntRange(0, 1).Draw(t, "enum") == 0 {
@@ -310,7 +328,7 @@ func genCompileWLKinds(t *rapid.T, maxFiles int, kinds []int) CompileWL {
 			Name:    "opts.proto",
 			Imports: []string{"google/protobuf/descriptor.proto"},
 			Text: "syntax = \"proto2\";\npackage o;\nimport \"google/protobuf/descriptor.proto\";\n" +
-				"extend google.protobuf.MessageOptions {\n  optional string tag = 50001;\n}\n" +
+				"extend google.protobuf.MessageOptions {\n  optional string tag = 50001;\n  optional float ratio = 50003;\n  optional double dval = 50004;\n  optional sint32 sval = 50005;\n}\n" +
 				"extend google.protobuf.FileOptions {\n  optional int32 ftag = 50002;\n}\n",
 		}
 	}
